@@ -13,6 +13,10 @@ LEVEL_TEXT = ('Static phase-guard, who-may-write, extend-prefix and purity rules
 
 
 def run(ctx):
+    from ..persist import rule_P12k
+    rule_P12k(ctx)      # ordered members are never rebuilt from the (alphabetical) group names
+    from ..pathrules import rule_T2_publish
+    rule_T2_publish(ctx)      # a half-finished checkpoint update is never published
     rule_T6(ctx)
     rule_F6(ctx)
     rule_L1_sampler(ctx, {'shell'})
